@@ -18,59 +18,76 @@ from .isdrules import substitute, names_in
 # ---------------------------------------------------------------------------------------
 
 def check_content_interval_hull(ctx, rule="FIN-hull"):
-  """In compute_sig_times the two updates of content_interval must implement: begin = min over
-  content begins (None = nothing yet), end = None (unbounded) as soon as one content end is None
-  or the interval is already unbounded, else the max.  Evaluated on a grid of (old, new) values."""
+  """The content interval that compute_sig_times accumulates is the hull of the content intervals it
+  is fed: begin = the smallest begin, end = unbounded (None) as soon as one content end is unbounded,
+  else the largest end.  The statements that update content_interval are folded, from the declared
+  initial state, over every sequence of one and two (begin, end) pairs of a small grid."""
+  from ..consteval import FuncEval, Raised, _CallingConstEval
+  from ..core import clone, parent as _par
   ix = ctx.ix
   f = ix.func("ttconv.isd:ISD.significant_times.<locals>.compute_sig_times")
+  sig = ix.func("ttconv.isd:ISD.significant_times")
   ctx.unit(f.module)
   ce = ConstEval(ix, symbolic_ok=False)
-  ups = {}
-  for st in own_nodes(f.node):
-    if isinstance(st, ast.Assign) and isinstance(st.targets[0], ast.Subscript) and unparse(st.targets[0].value) == "content_interval":
-      idx = ce.try_ev(f.module, st.targets[0].slice)
-      ups[idx] = st
-  if set(ups) != {0, 1}:
+  ups = [st for st in own_nodes(f.node) if isinstance(st, (ast.Assign, ast.AugAssign)) and any(isinstance(t, ast.Subscript) and unparse(t.value) == "content_interval"
+                                                                                               for t in (st.targets if isinstance(st, ast.Assign) else [st.target]))]
+  if len(ups) < 2:
     raise AnalysisError("compute_sig_times: content_interval[0] / [1] updates not found")
+  # innermost statement list that holds every update
+  def chain(n):
+    out = []
+    while n is not f.node:
+      n = _par(n)
+      out.append(n)
+    return out
+  common_anc = [a for a in chain(ups[0]) if all(any(a is x for x in chain(u)) for u in ups[1:])][0]
+  block = None
+  for fld in ("body", "orelse"):
+    lst = getattr(common_anc, fld, None)
+    if isinstance(lst, list) and all(any(any(u is y for y in ast.walk(x)) for x in lst) for u in ups):
+      block = lst
+  if block is None:
+    raise AnalysisError("compute_sig_times: the statements updating content_interval are not in one block")
   pairs = __import__("ttverif.rules.isdrules", fromlist=["interval_pairs"]).interval_pairs(f)
   own = [p for p in pairs if "anim" not in p[0]]
   if not own:
     raise AnalysisError("compute_sig_times: element interval variables not found")
   bv, ev = own[0][0], own[0][1]
+  inits = [st for st in own_nodes(sig.node) if isinstance(st, ast.Assign) and unparse(st.targets[0]) == "content_interval" and isinstance(st.value, (ast.List, ast.Tuple)) and len(st.value.elts) == 2]
+  if len(inits) != 1:
+    raise AnalysisError("significant_times: the initial value of content_interval was not found")
+  init = [ce.try_ev(sig.module, e, default="?") for e in inits[0].value.elts]
+
+  class Sub(ast.NodeTransformer):
+    def visit_Subscript(self, n):
+      if unparse(n.value) == "content_interval":
+        i = ce.try_ev(f.module, n.slice)
+        if i in (0, 1):
+          return ast.copy_location(ast.Name(id=f"__ci{i}", ctx=n.ctx), n)
+      return self.generic_visit(n)
+  stmts = [ast.fix_missing_locations(Sub().visit(clone(st))) for st in block]
+  fe = FuncEval(ix)
   F = Fraction
-  wrong = []
-  n = 0
-  # begin
-  e0 = substitute(ups[0].value, {"content_interval[0]": "__old"})
-  for old, new in itertools.product([None, F(1), F(5)], [F(0), F(3), F(7)]):
+  grid = [(F(0), None), (F(3), F(6)), (F(1), F(2)), (F(5), F(9))]
+  wrong, n = [], 0
+  for seq in [(a,) for a in grid] + [(a, b) for a in grid for b in grid]:
+    env = {"__ci0": init[0], "__ci1": init[1]}
     try:
-      got = ce.ev(f.module, e0, None, {"__old": old, bv: new})
-    except (NotConst, TypeError) as ex:
-      raise AnalysisError(f"content_interval[0] update leaves the evaluable subset: {ex}")
+      for (b_, e_) in seq:
+        env[bv], env[ev] = b_, e_
+        fe._block(_CallingConstEval(ix, fe, f, 0, None), f, stmts, env)
+    except (NotConst, Raised, TypeError) as ex:
+      raise AnalysisError(f"the content_interval updates leave the evaluable subset: {ex}")
     n += 1
-    want = new if old is None else min(old, new)
+    want = (min(b_ for b_, _ in seq), None if any(e_ is None for _, e_ in seq) else max(e_ for _, e_ in seq))
+    got = (env["__ci0"], env["__ci1"])
     if got != want:
-      wrong.append(("begin", old, new, got, want))
-  e1 = substitute(ups[1].value, {"content_interval[1]": "__old"})
-  for old, new in itertools.product([None, F(0), F(4), F(9)], [None, F(2), F(6), F(12)]):
-    try:
-      got = ce.ev(f.module, e1, None, {"__old": old, ev: new})
-    except (NotConst, TypeError) as ex:
-      raise AnalysisError(f"content_interval[1] update leaves the evaluable subset: {ex}")
-    n += 1
-    want = None if (old is None or new is None) else max(old, new)
-    if got != want:
-      wrong.append(("end", old, new, got, want))
-  ctx.check(not wrong, rule, f"{f.qualname}|content interval = hull of the content intervals", ctx.where(f.module, ups[1]),
-            f"begin = min, end = max with None (unbounded) absorbing, on {n} grid points",
+      wrong.append((seq, got, want))
+  ctx.check(not wrong, rule, f"{f.qualname}|content interval = hull of the content intervals", ctx.where(f.module, ups[-1]),
+            f"from the initial state {init}: begin = min, end = max with None (unbounded) absorbing, on {n} sequences",
             "the cached content interval is not the hull of the content intervals: "
-            + "; ".join(f"{k}: old={o} new={nw}: got {g}, want {w}" for k, o, nw, g, w in wrong[:3])
+            + "; ".join(f"content {[(str(b_), str(e_)) for b_, e_ in sq]}: interval {tuple(str(x) for x in g)}, hull {tuple(str(x) for x in w)}" for sq, g, w in wrong[:3])
             + " - snapshots generated with the significant-times cache skip a document while it still has visible content")
-  # initial state [None, 0]
-  init = [st for st in ix.func("ttconv.isd:ISD.significant_times").node.body if False]
-  sig = ix.func("ttconv.isd:ISD.significant_times")
-  ok = any(isinstance(st, ast.Assign) and unparse(st.targets[0]) == "content_interval" and unparse(st.value).replace(" ", "") == "[None,0]" for st in own_nodes(sig.node))
-  ctx.check(ok, rule, f"{sig.qualname}|content interval starts empty", ctx.where(sig.module, sig.node), "[None, 0]", "the content interval no longer starts as [None, 0] (no content yet, bounded)")
   return n
 
 
@@ -538,7 +555,8 @@ def _global_container(ix: Index, f: FuncInfo, expr) -> typing.Optional[str]:
   r = ix.resolve(f.module, expr, cls=f.cls, func=f)
   if isinstance(r, tuple) and r[0] == "assign":
     v = r[2]
-    if isinstance(v, (ast.Dict, ast.List, ast.Set)) or (isinstance(v, ast.Call) and unparse(v.func) in ("dict", "list", "set", "collections.OrderedDict")):
+    if _is_container_literal(v) or (isinstance(v, ast.Call) and unparse(v.func).split(".")[-1] in (
+        "WeakKeyDictionary", "WeakValueDictionary", "WeakSet", "deque", "Counter", "ChainMap", "SimpleNamespace", "local")):
       return unparse(expr)
   return None
 
@@ -626,4 +644,44 @@ def check_memo_single_producer(ctx, cls, rule="MEMO"):
     prods = sorted({p for p, _, _ in lst})
     ctx.check(len(prods) == 1, rule, f"{cls.qualname}|self.{d} has a single producer", ctx.where(cls.module, lst[0][2]), f"filled by `{prods[0]}`",
               f"the memo `self.{d}` is filled by different computations ({', '.join('`' + p + '`' for p in prods)}): a key stored by one is read back by the other")
+  return n
+
+
+def check_cache_keys(ctx, funcs: typing.Iterable[FuncInfo], rule="MEMO-key"):
+  """A dictionary used as a cache (name contains `cache` / `memo`) must not be keyed by objects
+  that compare by value (dataclasses, tuples of them): two distinct owners with equal values share
+  an entry.  Keys are typed with the light type inference; untyped keys are not judged."""
+  from ..typing_lite import Typer
+  ix = ctx.ix
+  ty = Typer(ix)
+  n = 0
+  for f in funcs:
+    env = None
+    for node in own_nodes(f.node):
+      key = None
+      if isinstance(node, ast.Subscript) and isinstance(node.value, (ast.Name, ast.Attribute)):
+        nm = unparse(node.value).split(".")[-1].lower()
+        if ("cache" in nm or "memo" in nm) and not isinstance(node.slice, ast.Slice):
+          key = node.slice
+      elif isinstance(node, ast.Call) and isinstance(node.func, ast.Attribute) and node.func.attr in ("get", "setdefault", "pop") and node.args:
+        nm = unparse(node.func.value).split(".")[-1].lower()
+        if "cache" in nm or "memo" in nm:
+          key = node.args[0]
+      if key is None:
+        continue
+      if env is None:
+        env = ty.env(f)
+      try:
+        t = ty.expr_type(f.module, key, env, f.cls, f)
+      except Exception:
+        t = None
+      cls = t[1] if isinstance(t, tuple) and len(t) == 2 and t[0] == "inst" else (t if hasattr(t, "is_dataclass") else None)
+      n += 1
+      ctx.unit(f.module)
+      k = f"{f.qualname}|{short(node, 50)}"
+      if cls is not None and getattr(cls, "is_dataclass", False):
+        ctx.bad(rule, k, ctx.where(f.module, node), f"`{short(node, 60)}` keys a cache by `{short(key, 30)}`, a {cls.name} value (a dataclass compares and hashes by value): "
+                f"equal values that belong to different elements share one cache entry")
+      else:
+        ctx.ok(rule, k, ctx.where(f.module, node), f"key `{short(key, 30)}` is not a value object")
   return n
